@@ -11,6 +11,7 @@ from harness import pymatch2lean
 
 HO, BA, DS, DI, EX, IM = ('testtools/matchers/' + n for n in ('_higherorder.py', '_basic.py', '_datastructures.py', '_dict.py', '_exception.py', '_impl.py'))
 TC, AS = 'testtools/testcase.py', 'testtools/assertions.py'
+WA = 'testtools/matchers/_warnings.py'
 
 # (name, file, [(old, new)...], what)
 H = [
@@ -63,6 +64,8 @@ H = [
  ('H43', IM, [('        if description is not None:\n            self._description = description', '        if description is None:\n            pass\n        else:\n            self._description = description')], 'Mismatch init inverted'),
  ('H44', EX, [('        expected_type = type(self.expected)\n        self._is_instance = not any(\n            issubclass(expected_type, class_type) for class_type in (type, tuple)\n        )\n', '        self._is_instance = not isinstance(self.expected, (type, tuple))\n')], 'MatchesException.__init__: isinstance(expected, (type, tuple)) for the issubclass test over type(expected)'),
  ('H45', EX, [('        expected_type = type(self.expected)\n        self._is_instance = not any(\n            issubclass(expected_type, class_type) for class_type in (type, tuple)\n        )\n', '        kind = type(exception)\n        self._is_instance = not (issubclass(kind, type) or issubclass(kind, tuple))\n')], 'MatchesException.__init__: the two issubclass tests written out'),
+ ('H46', WA, [('        with warnings.catch_warnings(record=True) as w:', '        with warnings.catch_warnings(record=True) as recorded:'), ('                return self.warnings_matcher.match(w)\n            elif not w:\n                return Mismatch("Expected at least one warning, got none")', '                return self.warnings_matcher.match(recorded)\n            if recorded:\n                return None\n            return Mismatch("Expected at least one warning, got none")')], 'Warnings.match: renamed list, the empty test inverted'),
+ ('H47', WA, [('            if self.warnings_matcher is not None:\n                return self.warnings_matcher.match(w)\n            elif not w:\n                return Mismatch("Expected at least one warning, got none")', '            if self.warnings_matcher is None:\n                if not w:\n                    return Mismatch("Expected at least one warning, got none")\n            else:\n                return self.warnings_matcher.match(w)')], 'Warnings.match: the matcher guard inverted'),
 ]
 M = [
  ('M01', HO, [('            if mismatch is None:\n                return None\n            results.append(mismatch)', '            if not mismatch:\n                return None\n            results.append(mismatch)')], 'MatchesAny: `is None` -> truthiness'),
@@ -103,6 +106,10 @@ M = [
  ('M35', EX, [('        if not issubclass(other[0], expected_class):', '        if not isinstance(other[1], expected_class):')], 'MatchesException: class test replaced by an instance test'),
  ('M37', EX, [('        expected_type = type(self.expected)\n        self._is_instance = not any(\n            issubclass(expected_type, class_type) for class_type in (type, tuple)\n        )\n', '        self._is_instance = type(self.expected) not in (type, tuple)\n')], 'MatchesException.__init__: exact type instead of the subclass test (seed C06-g: classes with a metaclass, named tuples)'),
  ('M38', EX, [('            value_re = AfterPreprocessing(str, MatchesRegex(value_re), False)', '            value_re = MatchesRegex(value_re)')], 'MatchesException.__init__: the regex applied to the exception itself, not to its str()'),
+ ('M39', WA, [('            warnings.simplefilter("always")', '            warnings.resetwarnings()')], 'Warnings.match: resetwarnings() for simplefilter("always") (seed C06-h: a repeated warning is recorded once)'),
+ ('M40', WA, [('            warnings.simplefilter("always")', '            warnings.simplefilter("default")')], 'Warnings.match: the action "default"'),
+ ('M41', WA, [('            warnings.simplefilter("always")\n            matchee()', '            matchee()\n            warnings.simplefilter("always")')], 'Warnings.match: the filter installed after the call'),
+ ('M42', WA, [('        MatchesListwise(\n            [WarningMessage(category_type=DeprecationWarning, message=message)]\n        )', '        AfterPreprocessing(\n            lambda w: w[:1],\n            MatchesListwise(\n                [WarningMessage(category_type=DeprecationWarning, message=message)]\n            ),\n        )')], 'IsDeprecated: only the first warning is looked at'),
 ]
 
 # behaviour-preserving, but deliberately NOT tolerated by the recogniser (the data changes, the tie alarms without a failing input)
